@@ -14,3 +14,7 @@ pub mod shapes;
 mod c14;
 #[cfg(kani)]
 mod shapes_gen;
+#[cfg(kani)]
+mod leaves;
+#[cfg(kani)]
+mod c16;
